@@ -8,8 +8,13 @@ CONSTANTS
   EmptyListPassThrough = FALSE
   Mode = "hist"
   HashCache = "none"
+  LazyHash = "getter"
+  ObsKinds <- ObsEffects
+  EmitLazy = FALSE
   CopyViaCtor = FALSE
   Emit = FALSE
 INVARIANT HashLawful
+INVARIANT ObsReadOnly
+INVARIANT FreshHashIsAbs
 INVARIANT CacheOnlyAfterHash
 CHECK_DEADLOCK FALSE
